@@ -29,7 +29,7 @@ ASSUMPTIONS = [
     "the independent cost model is the definition (validated against the unchanged tree)",
     "extract_contractions gives the node each recorded call belongs to (it is the programme that is executed)",
 ]
-REQUIRED_MONITORS = ["totals_vs_model", "nodes_vs_model", "peak_vs_model", "array_size_observed", "flops_observed", "peak_observed"]
+REQUIRED_MONITORS = ["copychain_trees", "totals_vs_model", "nodes_vs_model", "peak_vs_model", "array_size_observed", "flops_observed", "peak_observed"]
 SHARD_TIMEOUT = {"quick": 400, "thorough": 3600}
 
 
@@ -57,7 +57,31 @@ def build(case):
 
 
 def execute(rep, case):
+    """In 'copychain' mode the removed indices are applied with the NON-inplace variants, and every
+    tree of the chain (each is 'a tree, sliced or not') is checked after the whole chain exists -
+    figures of an older tree must not depend on what was done to trees derived from it."""
+    if case.get("mode") == "copychain":
+        net = gen.Net.from_json(case["net"])
+        base = ct.make_tree(net, case["ssa"])
+        base.contract_stats()
+        chain = [base]
+        for ix, proj in case["removed"]:
+            chain.append(chain[-1].remove_ind(ix, project=proj))
+        if case["removed"]:
+            chain.append(chain[-1].restore_ind(case["removed"][0][0]))
+            chain.append(chain[1].copy())
+            chain[-1].restore_ind_(case["removed"][0][0])
+        rep.mon("copychain_trees", len(chain))
+        for k, t in enumerate(chain):
+            res = execute_tree(rep, case, net, t)
+            if res:
+                return (res[0], f"tree #{k} of a non-inplace chain (sliced {list(t.sliced_inds)}): {res[1]}")
+        return None
     net, tree = build(case)
+    return execute_tree(rep, case, net, tree)
+
+
+def execute_tree(rep, case, net, tree):
     cs = case["case_seed"]
     model = ct.costs_of(tree)
     order = ct.make_order(case["order"], tree, rng_for(cs, "order"))
@@ -172,6 +196,7 @@ def gen_case(rng, cs, tier):
     return {
         "net": net.to_json(), "ssa": ssa, "removed": removed, "order": rng.choice(ct.ORDERS),
         "prefer_einsum": rng.random() < 0.3, "case_seed": cs, "cap": budget(tier, 30000, 200000),
+        "mode": "copychain" if rng.random() < 0.25 else "inplace",
     }
 
 
